@@ -6,7 +6,7 @@ and what the four front ends returned; the repository's on-air vectors guard the
 import json
 import os
 
-from harness import core
+from harness import core, gen
 from harness.drivers.c09 import pack
 
 WIDTHS = {7: "Crc7", 8: "Crc8", 9: "Crc9", 16: "Crc16", 32: "Crc32"}
@@ -144,7 +144,7 @@ def run(ctx):
         elif k == "16":
             data = bytes(rng.getrandbits(8) for _ in range(rng.choice([10, 10, rng.randrange(0, 40)])))
             m = rng.choice(masks)
-            buf = bytearray(data) if rng.random() < 0.5 else data
+            buf = bytearray(data) if rng.random() < 0.5 else gen.as_caller_bytes(data, len(fe))
             CRC16.calculate(buf, m)
             out = CRC16.calculate(buf, m)
             fe16(data, m.value, out, CRC16.check(buf, out, m),
@@ -154,7 +154,7 @@ def run(ctx):
         else:
             data = bytes(rng.getrandbits(8) for _ in range(rng.choice([rng.randrange(0, 60), rng.randrange(0, 60), 20])))
             # half of the callers own a mutable buffer and use it for several calls (calculate, calculate again, verify)
-            buf = bytearray(data) if rng.random() < 0.5 else data
+            buf = bytearray(data) if rng.random() < 0.5 else gen.as_caller_bytes(data, len(fe))
             CRC32.calculate(buf)
             out = CRC32.calculate(buf)
             fe32(data, out, CRC32.check(buf, out), any(CRC32.check(buf, x) for x in wrongs(out, 32)))
